@@ -238,6 +238,9 @@ def handleLine (st : State) (line : String) : State × String :=
       let m := p.sanitize b
       (st, verdict (m == seq) (hexField m) (if eq == "1" then [] else ["C13"]) [])
     | _, _, _ => (st, "bad-conc")
+  | ["alias", _inp, _outCopy, _out, ok] =>
+    -- a result handed out earlier changed (or the caller's input buffer did) while the library was used again
+    (st, verdict true "-" (if ok == "1" then [] else ["C13", "C15"]) [])
   | ["perm", pa, pb, inp, oa, ob] =>
     match getPolicy st pa, getPolicy st pb, unhexField inp with
     | some p, some q, some b =>
@@ -249,6 +252,18 @@ def handleLine (st : State) (line : String) : State × String :=
         (st, verdict (ma == oa && mb == ob) (hexField ma ++ "/" ++ hexField mb) (if oa == ob then [] else ["C17"]) [])
       | _, _ => (st, "bad-perm")
     | _, _, _ => (st, "bad-perm")
+  | ["mono", pa, pb, inp, oa, ob] =>
+    match getPolicy st pa, getPolicy st pb, unhexField inp with
+    | some p, some q, some b =>
+      if oa == "PANIC" || ob == "PANIC" then (st, "ok orc=C14") else
+      match unhexField oa, unhexField ob with
+      | some oa, some ob =>
+        let ma := p.sanitize b
+        let mb := q.sanitize b
+        (st, verdict (ma == oa && mb == ob) (hexField ma ++ "/" ++ hexField mb)
+          (if oracleMono oa ob then [] else ["C17", "C07"]) [])
+      | _, _ => (st, "bad-mono")
+    | _, _, _ => (st, "bad-mono")
   | ["time", pid, inp, impl, _us] =>
     match getPolicy st pid, unhexField inp with
     | some p, some b =>
